@@ -137,8 +137,13 @@ def mem_growth_kb(r):
     return max(0, int(r.get("maxrss_kb") or 0) - int(c.get("base_rss_kb") or 0))
 
 
-def bound(a, b, base):
-    return int(math.floor((float(b) / float(a)) ** DEGREE * base + 1e-9))
+# the path search of the taint phase runs once per reported flow over the reachable part of the SFG (flows x graph size:
+# up to degree 4 in the families with quadratically many flows, with large lower-order terms at the small sizes)
+COUNTER_DEGREE = {"taint_dfs": 5.0}
+
+
+def bound(a, b, base, degree=None):
+    return int(math.floor((float(b) / float(a)) ** (degree or DEGREE) * base + 1e-9))
 
 
 def growth_discrepancies(a, ca, b, cb, counters):
@@ -148,7 +153,7 @@ def growth_discrepancies(a, ca, b, cb, counters):
         base, val = int(ca.get(k) or 0), int(cb.get(k) or 0)
         if base < MIN_BASE:
             continue
-        lim = bound(a, b, base)
+        lim = bound(a, b, base, COUNTER_DEGREE.get(k))
         if val > lim:
             out.append((k, base, val, lim))
     return out
@@ -249,7 +254,7 @@ def sweep(col, family, p2, sizes, count_calls=False, counters=GROWTH_COUNTERS, f
             for k, base, val, lim in growth_discrepancies(prev[0], prev[1], n, c, counters):
                 col.discrepancy((ID, GROUPS.get(family, family), "growth"),
                                 "%s %s: %s(n=%d)=%d > (%d/%d)^%.1f * %s(n=%d)=%d -> bound %d" % (
-                                    family, flagstr(p2), k, n, val, n, prev[0], DEGREE, k, prev[0], base, lim), case_pair)
+                                    family, flagstr(p2), k, n, val, n, prev[0], COUNTER_DEGREE.get(k, DEGREE), k, prev[0], base, lim), case_pair)
         prev = (n, c, float(r.get("wall_s") or r.get("elapsed_s") or 0.0))
     if len(col.samples) < 1:
         col.sample({"family": family, "p2": bool(p2), "calls": bool(count_calls), "trace [n, status, steps]": trace})
